@@ -317,11 +317,21 @@ def add_emitted_bk_wav(state, output_wav_path, bk_filename, file_format):
             write_path = write_path[:-4]
         write_path += ".wav"
 
+    def encode(bk_filename):
+        try:
+            return bk_filename.encode(state["compiler"].output_charset)
+        except UnicodeEncodeError as ex:
+            reports.error(
+                "invalid-character",
+                (state["insn"].ctx_start, state["insn"].ctx_end, f"Cannot encode the BK filename '{bk_filename}' using the selected output charset:\n{ex}\nYou can set the filename manually like this:\n{insn_name} 'output.wav', 'bk file name'")
+            )
+            return b""
+
     if bk_filename is None:
         bk_filename = write_path.split("/")[-1]
         if bk_filename.lower().endswith(".wav"):
             bk_filename = bk_filename[:-4]
-        encoded_bk_filename = bk_filename.encode(state["compiler"].output_charset)
+        encoded_bk_filename = encode(bk_filename)
         if len(encoded_bk_filename) > 16:
             reports.error(
                 "too-long-string",
@@ -329,7 +339,7 @@ def add_emitted_bk_wav(state, output_wav_path, bk_filename, file_format):
             )
             encoded_bk_filename = encoded_bk_filename[:16]
     else:
-        encoded_bk_filename = bk_filename.encode(state["compiler"].output_charset)
+        encoded_bk_filename = encode(bk_filename)
         if len(encoded_bk_filename) > 16:
             reports.error(
                 "too-long-string",
